@@ -13,7 +13,10 @@ EXPLANATION = ("TABLE/EXHAUST rule on AbstractThresholdConditionChecker::GetStat
                "function returns the carried state. ALWAYS_ACTIVE / NEVER_ACTIVE short-circuit before anything else. The queried block is "
                "first moved to the last block of the previous period (h - ((h+1) % period)) or is null before the cache is touched, every "
                "other step moves by exactly one period, DEFINED is cached directly only for the null block or MTP < start. The signalling "
-               "count is 0 plus one per block satisfying Condition over exactly `period` consecutive ancestors starting at the period's last block.")
+               "count is 0 plus one per block satisfying Condition over exactly `period` consecutive ancestors starting at the period's last block. "
+               "Predicate twin of the signalling condition the loop dispatches to (VersionBitsConditionChecker in versionbits_impl.h): "
+               "Condition(block) == Condition(block->nVersion); Condition(v) is true exactly when (v & VERSIONBITS_TOP_MASK) == VERSIONBITS_TOP_BITS and "
+               "(v & Mask()) != 0; Mask() == 1 << dep.bit; TOP_MASK == 0xE0000000, TOP_BITS == 0x20000000.")
 ASSUMPTIONS = ["Period/Threshold/BeginTime/EndTime/MinActivationHeight are pure accessors (opaque atoms)",
                "CBlockIndex::GetAncestor/GetMedianTimePast/pprev navigate the block tree correctly (C54, not claimed)",
                "std::map/vector semantics of the cache and the work list"]
@@ -23,7 +26,7 @@ CLAIM = dict(
     text="Decides, for every path through GetStateFor, that one period step applies exactly the BIP9 transition relation (with lock-in tested before "
          "timeout and min_activation_height gating ACTIVE), that ACTIVE/FAILED are absorbing, that always/never-active deployments short-circuit, "
          "that the state is computed for the period boundary block (so it is the same for all blocks of a period), and that the threshold is "
-         "compared with a count over exactly one period of ancestors. Unit tests run specific scenarios; this covers every state/guard combination.",
+         "compared with a count over exactly one period of ancestors of blocks whose version has top bits 001 and the deployment bit set. Unit tests run specific scenarios; this covers every state/guard combination.",
     note="Not decided: cache-independence over query orders as a behavioural fact (only: the cache is keyed by the period-boundary block and every "
          "value stored is either the computed next state or DEFINED under the start-time/genesis guard); GetStateSinceHeightFor/GetStateStatisticsFor; "
          "block-tree navigation (GetAncestor, MTP).",
@@ -65,6 +68,7 @@ def check(ctx):
     short_circuits(ctx, P, f, subst)
     alignment(ctx, P, f, subst)
     counting(ctx, P, f, subst)
+    signalling_condition(ctx, P)
 
 
 # ------------------------------------------------------------------------------------------------
@@ -341,3 +345,40 @@ def counting(ctx, P, f, subst):
     sw = [st for st in stmts(f.body) if st.get("k") == "switch"][0]
     in_sw = any(st.get("k") == "decl" and st.get("n") == cnt for st in stmts(sw))
     ctx.ob("GetStateFor/counter-per-period", "PROVENANCE", "the counter is declared inside the switch (reset for every period step)", in_sw, where)
+
+
+# ------------------------------------------------------------------------------------------------
+def signalling_condition(ctx, P):
+    """Predicate twin of the BIP9 signalling condition used by the counting loop (VersionBitsConditionChecker, versionbits_impl.h):
+    a block signals exactly when (nVersion & TOP_MASK) == TOP_BITS and (nVersion & Mask()) != 0, Mask() == 1 << bit."""
+    V = "VersionBitsConditionChecker::"
+    tm, tb = P.const("VERSIONBITS_TOP_MASK"), P.const("VERSIONBITS_TOP_BITS")
+    ctx.ob("const/VERSIONBITS_TOP", "CONST", "VERSIONBITS_TOP_MASK == 0xE0000000 and VERSIONBITS_TOP_BITS == 0x20000000 (as 32-bit patterns)",
+           tm is not None and tb is not None and (tm & 0xFFFFFFFF) == 0xE0000000 and (tb & 0xFFFFFFFF) == 0x20000000, None, {"TOP_MASK": tm, "TOP_BITS": tb})
+    rec = P.record("VersionBitsConditionChecker")
+    ctx.ob("VersionBitsConditionChecker/base", "EXHAUST", "VersionBitsConditionChecker derives from AbstractThresholdConditionChecker (its Condition is the one the counting loop "
+           "of GetStateFor dispatches to for consensus deployments)", "AbstractThresholdConditionChecker" in rec.get("bases", []), "%s:%s" % (rec["file"], rec.get("l")))
+    conds = P.fns(V + "Condition")
+    by_block = [f for f in conds if len(f.params) == 1 and "CBlockIndex" in f.params[0]["ty"]]
+    by_version = [f for f in conds if len(f.params) == 1 and "CBlockIndex" not in f.params[0]["ty"]]
+    if len(by_block) != 1 or len(by_version) != 1:
+        raise AnalysisBroken("VersionBitsConditionChecker::Condition overloads not found (block: %d, version: %d)" % (len(by_block), len(by_version)))
+    fb, fv = ctx.used(by_block[0]), ctx.used(by_version[0])
+    # Condition(const CBlockIndex*) == Condition(pindex->nVersion)
+    sb = naming(fb, P)
+    ex = exits(fb, P, sb)
+    pn = fb.params[0]["n"]
+    ok = len(ex) == 1 and ex[0].kind == "ret" and match(["mcall", V + "Condition", ["this"], [".", ["param", pn], "CBlockIndex::nVersion"]], F.expand(ex[0].value, {k: v for k, v in sb.items() if k != "@idx"}))
+    ctx.ob("Condition(block)/forwards-version", "TWIN", "Condition(const CBlockIndex*) is exactly Condition(pindex->nVersion), on every path", bool(ok), fb.where,
+           {"returns": [show(e.value) for e in ex if e.value]})
+    # Condition(int32_t)
+    vn = fv.params[0]["n"]
+    top = ["%d & %s == %d" % (tm, vn, tb), "%s & %d == %d" % (vn, tm, tb)]
+    bit = ["%sMask() & %s" % (V, vn), "%s & %sMask()" % (vn, V)]
+    check_return_formula(ctx, fv, P, "TOP && BIT", {"TOP": top, "BIT": bit}, oid="Condition(version)")
+    # Mask() == 1 << dep.bit
+    fm = ctx.used(P.fn(V + "Mask"))
+    exm = exits(fm, P)
+    want = F.key(["b", "<<", ["int", 1], [".", [".", ["this"], V + "dep"], "Consensus::BIP9Deployment::bit"]])
+    ok = len(exm) == 1 and exm[0].kind == "ret" and F.key(F.expand(exm[0].value, {k: v for k, v in naming(fm, P).items() if k != "@idx"})) == want
+    ctx.ob("Mask/one-shifted-by-bit", "TWIN", "VersionBitsConditionChecker::Mask() is 1 << dep.bit", bool(ok), fm.where, {"returns": [show(e.value) for e in exm if e.value]})
